@@ -99,4 +99,29 @@ def readJsonS (pnum : Bytes → Option UInt64) (doc : JVal) : Res :=
   | none => .err
   | some cols => newS (cols.map LCol.toNewCol) [] []
 
+/-- ReadJSON with `ColumnOrder(order...)` and `Enums(enums)` (`readJsonS` is the case without either). -/
+def readJsonCfgS (pnum : Bytes → Option UInt64) (doc : JVal) (order : List Bytes) (enums : List (Bytes × List Bytes)) : Res :=
+  match jsonDocS pnum doc with
+  | none => .err
+  | some cols => newS (cols.map LCol.toNewCol) order enums
+
+/-- `strconv.ParseFloat(t, 64)` on a JSON number token as a correct IEEE parser: the correctly rounded float64 of the
+decimal; a decimal that rounds to an infinity is out of range (an error). -/
+def pnumS (t : Bytes) : Option UInt64 :=
+  match Num.parseNumber t with
+  | some (neg, m, d) =>
+    if (Num.ofDecimal neg m d &&& 0x7fffffffffffffff) == 0x7ff0000000000000 then none else some (Num.ofDecimal neg m d)
+  | none => none
+
+/-- The columns in the order `New` gives them when no column order is supplied: sorted by name. -/
+def sortByName (cols : List LCol) : List LCol :=
+  (sortNames (cols.map (·.name))).filterMap (fun n => cols.find? (·.name == n))
+
+/-- What is left of a frame read back from JSON with column order and enum declarations supplied when NOTHING is supplied:
+the names as a JSON decoder returns them, enum columns as string columns, the columns sorted by name. -/
+def jsonUnconfigured (g : LFrame) : LFrame :=
+  { n := g.n
+    cols := sortByName (g.cols.map fun c =>
+      { name := Json.sanitize c.name, ty := if c.ty == .enum then .string else c.ty, cells := c.cells }) }
+
 end QF
